@@ -73,7 +73,8 @@ def plan(tier, seed):
             elif f in ("downsample", "upsample"):
                 c["factors"] = [int(rng.integers(1, 5)) for _ in shape]
                 c["fshift"] = None if rng.random() < 0.3 else [
-                    int(rng.integers(0, min(s, ff))) for s, ff in zip(shape, c["factors"])]
+                    int(rng.integers(0, min(s, ff + (3 if rng.random() < 0.4 else 0))))
+                    for s, ff in zip(shape, c["factors"])]      # shifts past the factor too
                 if f == "upsample":
                     sh = c["fshift"] or [0] * nd
                     c["oshape"] = [(s - 1) * ff + h + 1 + int(rng.integers(0, ff))
